@@ -1,7 +1,9 @@
 \* exhaustive check of the design; history hidden by VIEW (MaxOps = 0: hist stays constant)
 SPECIFICATION Spec
 CONSTANTS
-  Eprs = {"e1", "e2"}
+  Eprs = {"e1"}
+  LocalEprs = {"e1"}
+  DupAll = FALSE
   UnknownEpr = "e9"
   Versions = {1, 2}
   MsgIds = {"m1", "m2", "m3"}
